@@ -627,6 +627,105 @@ pub async fn deleverage(w: &mut World, m: &mut Mon, r: &mut R, lev: &Lev, g: usi
     }
 }
 
+/// US dollars per native unit of bank `b` at the low-biased spot price (approximate, for sizing workloads)
+pub fn unit_usd_low(w: &World, b: usize) -> Option<f64> {
+    let dec = w.mint_of_bank(b).decimals as i32;
+    match &w.banks[b].oracle {
+        OracleD::Pyth(k) => {
+            let p = w.pyth[k];
+            let bias = ((p.conf as f64) * 2.12).min(p.price as f64 * 0.05);
+            Some(((p.price as f64) - bias) * 10f64.powi(p.expo) / 10f64.powi(dec))
+        }
+        OracleD::Swb(k) => {
+            let p = w.swb[k];
+            let bias = ((p.std_dev as f64) * 1.96).min(p.value as f64 * 0.05);
+            Some(((p.value as f64) - bias) / 1e18 / 10f64.powi(dec))
+        }
+        _ => None,
+    }
+}
+
+/// Deleverage of a whale: one forced withdrawal worth just over 2^32 dollars against a small daily
+/// limit. The limit and the program's counter are 32-bit whole dollars; the withdrawal must be
+/// refused, not counted by its remainder.
+pub async fn whale_deleverage(w: &mut World, m: &mut Mon, r: &mut R, g: usize, lender: usize, ca: usize, db: usize) {
+    // two fresh banks on whole-unit mints ($100 and $50 per unit) so that billions of dollars fit
+    let _ = (ca, db);
+    let now = w.chain.now();
+    let (mc_new, md_new) = (w.add_mint(0, TokKind::Classic).await, w.add_mint(pick(r, &[0u8, 2]), TokKind::Classic).await);
+    let mut cc = default_bank_cfg();
+    cc.asset_weight_init = wi(0.8);
+    cc.asset_weight_maint = wi(0.9);
+    let ca = match w.add_bank_pyth(g, mc_new, cc, PythPx::simple(100_000_000, -6, now)).await {
+        Ok(b) => b,
+        Err(_) => return,
+    };
+    let dprice = if w.mints[md_new].decimals == 0 { 50_000_000 } else { 5_000_000_000 };
+    let db = match w.add_bank_pyth(g, md_new, default_bank_cfg(), PythPx::simple(dprice, -6, now)).await {
+        Ok(b) => b,
+        Err(_) => return,
+    };
+    w.create_ata(w.fee_wallet.pubkey(), mc_new).await;
+    w.create_ata(w.fee_wallet.pubkey(), md_new).await;
+    let (pc, pd) = match (unit_usd_low(w, ca), unit_usd_low(w, db)) {
+        (Some(a), Some(b)) if a > 0.0 && b > 0.0 => (a, b),
+        _ => return,
+    };
+    let need_c = 9.0e9 / pc;
+    let need_d = 5.0e9 / pd;
+    let gk = w.groups[g].key;
+    let admin = clone_kp(&w.groups[g].admin);
+    let risk = clone_kp(&w.groups[g].risk);
+    // liquidity for the whale's loan
+    let lk = w.auth_of(lender);
+    let lta = w.ta_of(lender, db);
+    let mi = w.banks[db].mint;
+    w.mint_to(mi, lta, (need_d * 1.5) as u64).await;
+    let i = w.ix_deposit(lender, db, lk.pubkey(), lta, (need_d * 1.3) as u64, None);
+    if !w.exec(m, &[i], &[&lk]).await.ok() {
+        return;
+    }
+    let u = w.add_user(1).await;
+    let a = w.add_account(g, u).await;
+    let auth = w.auth_of(a);
+    let (tc, td) = (w.ta_of(a, ca), w.ta_of(a, db));
+    let mc = w.banks[ca].mint;
+    w.mint_to(mc, tc, need_c as u64 + 10).await;
+    let i = w.ix_deposit(a, ca, auth.pubkey(), tc, need_c as u64, None);
+    if !w.exec(m, &[i], &[&auth]).await.ok() {
+        return;
+    }
+    let i = w.ix_borrow(a, db, auth.pubkey(), td, need_d as u64);
+    if !w.exec(m, &[i], &[&auth]).await.ok() {
+        m.r.count("scen.whale_borrow_rejected");
+        return;
+    }
+    let limit = pick(r, &[1000u32, 5000]);
+    let i = ix::configure_delev_limit(gk, admin.pubkey(), limit);
+    let _ = w.exec(m, &[i], &[&admin]).await;
+    let ta_c = w.new_token_account(mc, risk.pubkey(), 0).await;
+    let ta_d = w.new_token_account(mi, risk.pubkey(), (need_d * 1.2) as u64).await;
+    let acct = w.accts[a].key;
+    let i = ix::init_liq_record(acct, risk.pubkey());
+    let _ = w.exec(m, &[i], &[&risk]).await;
+    for extra in [0.1f64, 0.5, 0.9] {
+        let target = 4_294_967_296.0 + extra * limit as f64;
+        let wd = (target / pc).ceil() as u64;
+        let rp = ((target * 1.02) / pd) as u64;
+        let risk_metas = w.risk_metas(a, None, None);
+        let mut rem = w.mint_prefix(ca);
+        rem.extend(risk_metas.clone());
+        let ixs = vec![
+            ix::start_deleverage(gk, acct, risk.pubkey(), risk_metas.clone()),
+            ix::withdraw(gk, acct, risk.pubkey(), w.banks[ca].key, ta_c, w.token_program_of_bank(ca), wd, None, rem),
+            ix::repay(gk, acct, risk.pubkey(), w.banks[db].key, ta_d, w.token_program_of_bank(db), rp, None, w.mint_prefix(db)),
+            ix::end_deleverage(gk, acct, risk.pubkey(), risk_metas),
+        ];
+        let o = w.probe(m, &ixs, &[&risk]).await;
+        m.r.count(&if o.ok() { "scen.whale_deleverage_accepted".to_string() } else { format!("scen.whale_deleverage_rejected/{}", o.custom_code().map(|c| c.to_string()).unwrap_or_else(|| "other".into())) });
+    }
+}
+
 /// Real wipe-out: a bank whose single borrower goes bankrupt with more debt than the bank has
 /// deposits. Afterwards every financial instruction and every admin path is tried on the bank.
 pub async fn wipeout(w: &mut World, m: &mut Mon, r: &mut R, g: usize, lender: usize) -> Option<usize> {
